@@ -151,6 +151,23 @@ impl Interner for Prov<'_> {
     fn display_name(&self, name: NameId) -> impl Display + '_ {
         &self.u.names[name.0 as usize].label
     }
+    /// Unlike the trait's default this keeps the order in which the solver hands the merged solvables
+    /// over (a provider is free to do so): an order that depended on a hash container would show in the
+    /// conflict message.
+    fn display_merged_solvables(&self, solvables: &[SolvableId]) -> impl Display + '_ {
+        let mut s = String::new();
+        if let Some(first) = solvables.first() {
+            s.push_str(&self.u.names[self.u.solvs[first.0 as usize].name as usize].label);
+            s.push(' ');
+        }
+        for (i, id) in solvables.iter().enumerate() {
+            if i > 0 {
+                s.push_str(" | ");
+            }
+            s.push_str(&self.u.solvs[id.0 as usize].version.to_string());
+        }
+        s
+    }
     fn display_version_set(&self, version_set: VersionSetId) -> impl Display + '_ {
         &self.u.vsets[version_set.0 as usize].label
     }
